@@ -229,7 +229,7 @@ Record oracle_ok (O : oracles) : Prop := {
   (* FormatFloat(d.Seconds(),'f',5) then ParseFloat, *1e9, truncate: within 10 us, stable *)
   ok_dur : forall d, dur_any d = true ->
     exists d', parse_dur O (fmt_dur O d) = Some d' /\ dur_close d d' = true
-               /\ dur_any d' = true /\ fmt_dur O d' = fmt_dur O d
+               /\ fmt_dur O d' = fmt_dur O d
                /\ (6000 < Z.abs d -> d' <> 0);
   ok_dur_chars : forall d, num_chars (fmt_dur O d) = true /\ fmt_dur O d <> "";
   ok_rate : forall f, rate_ok f = true -> parse_rate O (fmt_rate O f) = Some f;
@@ -237,7 +237,7 @@ Record oracle_ok (O : oracles) : Prop := {
   (* Format with millisecond precision then Parse: same instant to 1 ms, same offset, stable *)
   ok_time : forall t, time_ok t = true ->
     exists t', parse_time O (fmt_time O t) = Some t' /\ time_close t t' = true
-               /\ time_ok t' = true /\ fmt_time O t' = fmt_time O t;
+               /\ fmt_time O t' = fmt_time O t;
   ok_time_chars : forall t, no_crlf (fmt_time O t) = true
 }.
 
